@@ -288,6 +288,12 @@ def rule_value_flow(prog, res):
                 return False
             okc_, dc_ = looprules.action_complete(fd, da, pb_, _unknown_signal)
             res.ob("Q-flow", "%s decode | every entry read with a recognised signal id is pushed (nothing else skips an entry)" % num, okc_, dc_, fd.loc)
+            r_ = pushes[0][1][0]
+            while r_.op in ("ref", "mem", "memval"):
+                r_ = r_.args[0]
+            if r_.op == "loc":
+                okm_, dm_ = looprules.only_mutated_by(fd, r_.args[1], {pb_})
+                res.ob("Q-flow", "%s decode | the list is mutated only by that push (nothing is removed, reordered or overwritten afterwards)" % num, okm_, dm_, fd.loc)
         # ---- encode: signal id and bias come from the element currently written
         ea = FA(fe, prog)
         puts = [(b, ea.call_args(b), t) for b, t in fe.calls() if callee_of(t) == PUT]
@@ -649,6 +655,13 @@ def rule_1230(prog, res):
                         break
                     st_.append(z)
     res.ob("Q-1230", "1230 | every index whose mask bit is set yields an entry (only a clear bit skips an index)", okp, dp, fd.loc)
+    if pbs:
+        r_ = da.call_args(pbs[0])[0]
+        while r_.op in ("ref", "mem", "memval"):
+            r_ = r_.args[0]
+        if r_.op == "loc":
+            okm_, dm_ = looprules.only_mutated_by(fd, r_.args[1], set(pbs))
+            res.ob("Q-1230", "1230 | the decoded list is mutated only by those pushes", okm_, dm_, fd.loc)
     errs = set()
     for b in sorted(fe.reachable()):
         for i, s in enumerate(fe.blocks[b]["stmts"]):
